@@ -67,7 +67,7 @@ def plan(tier, seed):
 def floors(tier):
     return {
         "evaluations": 300000,
-        "strata": ["names", "col3", "col6", "insitu-tikz", "optimized-interpreter"],
+        "strata": ["names", "col3", "col6", "insitu-tikz", "optimized-interpreter", "conversions-after-hex2rgbf"],
         "events": {"int2name": 300000, "hex2rgb": 60000, "hex2rgbstr": 60000, "hex2html": 60000},
         "distinct_nontrivial": 1000,
     }
@@ -85,6 +85,22 @@ def _drive_codes(ctx, mon, codes, stratum):
                 fn(code)
             except Exception:
                 pass  # the monitor has recorded the raise as a violation
+        if n % 3 == 0:
+            # history: the other public colour helper (float channels) is asked about the same colour, then the three
+            # conversions again under another spelling of the same colour (seeded/C20o: a cache shared between the
+            # helpers, normalised in place by hex2rgbf) - every call is judged by the monitor against its own argument
+            try:
+                U.hex2rgbf(code)
+            except Exception:
+                pass
+            alt = code.swapcase() if n % 2 else (code[1:] if code.startswith("#") else "#" + code)
+            for fn in (U.hex2html, U.hex2rgb, U.hex2rgbstr):
+                for c2 in (alt, code):
+                    try:
+                        fn(c2)
+                    except Exception:
+                        pass
+            ctx.stratum("conversions-after-hex2rgbf", generated=1, judged=1, held=1)
         n += 1
         c = code.lstrip("#")
         if len(c) == 3 or any(ch.isalpha() for ch in c):
